@@ -112,13 +112,29 @@ Section Tail.
   Proof. exact create_reaches_target_thm. Qed.
 
   (* "... so repeated reconciliation with unchanged inputs stops mutating (no
-     update loop)": a pass patched, the server applied the patch, the next
-     pass is quiet.  PARTIAL in one respect: that the patched object carries
-     the owner reference and that its annotation reads back the recorded
-     document are hypotheses (they are C08's payload theorems
-     patch_result_refs / last_applied_truthful over Payload.v); the full
-     composition over the whole-function model belongs to ResourceFn.v. *)
-  Theorem C04_no_update_loop_partial : forall cfg t live ann r p rr2,
+     update loop)": a pass patched, the API server applied the patch by RFC
+     7386, the next pass with the same target makes no call and returns the
+     object.  Fully composed over the tail model: owner check, last-applied
+     extraction, comparison and dispatch of BOTH passes.  Further hypotheses:
+     unique keys in target / live object / owner reference (Python dicts), the
+     owner reference has a string uid, the target does not itself specify
+     metadata.ownerReferences, and the first pass's owner check did not find
+     the live metadata corrupt (a PermFail object is truthy in the code: that
+     pass patches without adding the owner and the NEXT pass adds it — two
+     patches, still no loop; excluded here). *)
+  Theorem C04_no_update_loop : forall cfg t live ann r p okvs u,
+    good t = true -> no_nulls t = true -> ann_free t = true -> owners_free t = true ->
+    wf t = true -> wf live = true ->
+    tc_owner_ref cfg = JMap okvs -> wf (JMap okvs) = true -> lookup "uid" okvs = Some (JStr u) ->
+    (forall rr, owner_check cfg live = Done rr -> rr <> ReffedPermFail) ->
+    tail cfg t live ann = Some (r, [CPatch p]) ->
+    let live2 := merge_patch live (body p) in
+    tail cfg t live2 (Some (recorded p)) = Some (TLive live2, []).
+  Proof. exact no_update_loop_full. Qed.
+
+  (* the modular form: the two payload facts as hypotheses (they are also
+     C08's patch_result_refs / last_applied_truthful) *)
+  Theorem C04_no_update_loop_modular : forall cfg t live ann r p rr2,
     good t = true -> no_nulls t = true -> ann_free t = true ->
     tail cfg t live ann = Some (r, [CPatch p]) ->
     let live2 := merge_patch live (body p) in
@@ -156,6 +172,8 @@ Definition ex4_live : json :=
 
 Example C04_nonvacuous :
   good ex4_target = true /\ no_nulls ex4_target = true /\ ann_free ex4_target = true /\
+  owners_free ex4_target = true /\ wf ex4_target = true /\ wf ex4_live = true /\
+  (forall rr, owner_check ex4_cfg ex4_live = Done rr -> rr <> ReffedPermFail) /\
   (* pass 1 patches and reports Retry 7 ... *)
   (exists p, tail ex4_cfg ex4_target ex4_live None = Some (TRetry 7%Z "spec.update.patch", [CPatch p]) /\
      let live2 := merge_patch ex4_live (body p) in
@@ -168,6 +186,10 @@ Proof.
   split; [vm_compute; reflexivity|].
   split; [vm_compute; reflexivity|].
   split; [vm_compute; reflexivity|].
+  split; [vm_compute; reflexivity|].
+  split; [vm_compute; reflexivity|].
+  split; [vm_compute; reflexivity|].
+  split; [vm_compute; intros rr H; inversion H; discriminate|].
   eexists. split; [vm_compute; reflexivity|].
   split; [vm_compute; reflexivity|].
   split; [vm_compute; reflexivity|].
@@ -204,4 +226,5 @@ Print Assumptions C04_mutation_is_retry.
 Print Assumptions C04_at_most_one_call.
 Print Assumptions C04_patch_reaches_target.
 Print Assumptions C04_create_reaches_target.
-Print Assumptions C04_no_update_loop_partial.
+Print Assumptions C04_no_update_loop.
+Print Assumptions C04_no_update_loop_modular.
